@@ -93,6 +93,10 @@ def specP : P String := do
       -- registry given in iteration order
       let it ← listOf int; let sorted ← listOf int
       pure (okB ((sortByDue (it.map (fun d => ({ due := d, cells := [] } : JobRow)))).map (·.due) == sorted))
+  | "prettify" => do
+      -- the "due in" text job._str() delivers for a time difference of `us` microseconds
+      let us ← int; let txt ← listOf nat
+      pure (okB (prettify us == txt))
   | "rowlen" => do
       let len ← nat; let widths ← listOf nat
       pure (okB (len == widths.sum + (widths.length - 1) + 1))
